@@ -1,33 +1,48 @@
 //! C20 executor.  One stdin line per invocation shape of `rec_lambda!`:
-//!     `<caps: string over S/M or -> <tys: string over V/U or -> <nargs> <ret 0|1> <trailing 0|1>`
+//!     `<caps: string over S/M or -> <tys: string over V/U or -> <nargs> <ret 0|1> <trailing 0|1> [<families> [<atys> <ctys> <rty>]]`
+//! `<families>` is `-` or a comma separated list of program families (see fam.rs): T L E A Y D<depth> R G N K X.
 //! One output line per shape (same order):
-//!     `<OK|CE> ## <numbers printed by the macro version> ## <numbers printed by the hand-written version> ## <expansion>`
+//!     `<OK|CE|CR> ## <numbers printed by the macro version> ## <numbers printed by the hand-written version> ## <expansion>`
 //! where <expansion> is the whitespace-collapsed text of the function containing the macro invocation as
-//! printed by `rustc +nightly -Zunpretty=expanded` (or `XE` if the expansion failed).
+//! printed by `rustc +nightly -Zunpretty=expanded` (or `XE` if the expansion failed, `XE release-expansion-differs` if
+//! the expansion obtained with `-C debug-assertions=off` is not the same text).
 //!
-//! Every shape needs a compilation, so ALL shapes of a run go into ONE generated program (one function pair
-//! per shape, one output line per function; the hand-written version runs first, panics are caught per
-//! function); if that program does not compile or crashes (stack overflow, abort, timeout), every shape is
-//! compiled and run on its own so that the failing shapes are known exactly.  A missing output line is
-//! reported as `-999` (macro version) / `-998` (hand-written version) so that it never compares equal.  The library under test is compiled from
-//! `$C20_REPO/rlib/lambda/src/lib.rs` (default /repo) with plain rustc (stable for the run, nightly for the
-//! expansion); all files live under `$C20_WORK` (default /verif/harness/target/c20-work), never in the repo.
+//! The numbers: base variant, `-7` + nested variant (shapes with a return type), then for every requested family
+//! `-(20+k)` + what that family printed (k = index of the family in FAMS), all of that for the DEBUG build
+//! (plain rustc) and, after the separator `-8`, once more for the RELEASE build (`-C opt-level=3 -C debug-assertions=off`,
+//! library built with the same flags).  A missing line (crash, abort, timeout, does not compile) is a negative code that
+//! differs between the two versions, so it never compares equal.  `CE` = some program of the shape does not compile in
+//! the debug build, `CR` = only the release build fails.
+//!
+//! Every shape needs a compilation, so the shapes of a run are grouped into a few programs (one function pair per
+//! shape and family, one output line per function; panics are caught per function); if such a program does not compile
+//! or crashes, every shape of it is compiled and run on its own so that the failing shapes are known exactly.
+//! The library under test is compiled from `$C20_REPO/rlib/lambda` (default /repo; `[lib] path` and `edition` are read
+//! from its Cargo.toml) with plain rustc (stable for the runs, nightly for the expansion); all files live under
+//! `$C20_WORK` (default /verif/harness/target/c20-work), never in the repo.
+mod fam;
+
 use std::fmt::Write as _;
 use std::io::{BufRead, Write};
 use std::path::{Path, PathBuf};
 use std::process::Command;
+use std::sync::Mutex;
 
 #[derive(Clone)]
-struct Shape {
-    caps: Vec<(bool, bool)>, // (mutable, scalar u64 instead of Vec<u64>)
-    nargs: usize,
-    ret: bool,
-    trailing: bool,
+pub struct Shape {
+    pub caps: Vec<(bool, bool)>, // (mutable, scalar u64 instead of Vec<u64>)
+    pub nargs: usize,
+    pub ret: bool,
+    pub trailing: bool,
+    pub fams: Vec<String>,
+    pub atys: String,
+    pub ctys: String,
+    pub rty: char,
 }
 
 fn parse(line: &str) -> Shape {
     let t: Vec<&str> = line.split_whitespace().collect();
-    if t.len() != 5 {
+    if t.len() != 5 && t.len() != 6 && t.len() != 9 {
         eprintln!("c20: bad case line {:?}", line);
         std::process::exit(3);
     }
@@ -36,15 +51,24 @@ fn parse(line: &str) -> Shape {
     } else {
         t[0].chars().zip(t[1].chars()).map(|(k, ty)| (k == 'M', ty == 'U')).collect()
     };
-    Shape { caps, nargs: t[2].parse().unwrap(), ret: t[3] == "1", trailing: t[4] == "1" }
+    let fams: Vec<String> = if t.len() >= 6 && t[5] != "-" { t[5].split(',').map(|x| x.to_string()).collect() } else { vec![] };
+    for f in &fams {
+        if fam::index(f).is_none() {
+            eprintln!("c20: unknown family {:?} in {:?}", f, line);
+            std::process::exit(3);
+        }
+    }
+    let dash = |x: &str| if x == "-" { String::new() } else { x.to_string() };
+    let (atys, ctys, rty) = if t.len() == 9 { (dash(t[6]), dash(t[7]), t[8].chars().next().unwrap_or('-')) } else { (String::new(), String::new(), '-') };
+    Shape { caps, nargs: t[2].parse().unwrap(), ret: t[3] == "1", trailing: t[4] == "1", fams, atys, ctys, rty }
 }
 
-fn ty(scalar: bool) -> &'static str {
+pub fn ty(scalar: bool) -> &'static str {
     if scalar { "u64" } else { "Vec<u64>" }
 }
 
 /// expressions passed in a recursive call: x0 - 1, then the other arguments rotated and shifted
-fn call_exprs(n: usize) -> Vec<String> {
+pub fn call_exprs(n: usize) -> Vec<String> {
     let mut v = vec!["x0 - 1".to_string()];
     for i in 1..n {
         v.push(format!("x{}.wrapping_add({})", (i % (n - 1)) + 1, i));
@@ -52,8 +76,8 @@ fn call_exprs(n: usize) -> Vec<String> {
     v
 }
 
-/// the body; `rec` renders one recursive call from its argument expressions
-fn body(s: &Shape, rec: &dyn Fn(&[String]) -> String, nested: bool) -> String {
+/// reads every shared capture into `sh`, mutates every mutable capture
+pub fn prelude(s: &Shape) -> String {
     let mut b = String::new();
     let n = s.nargs;
     b.push_str("            let mut sh: u64 = 1;\n");
@@ -75,6 +99,13 @@ fn body(s: &Shape, rec: &dyn Fn(&[String]) -> String, nested: bool) -> String {
             }
         }
     }
+    b
+}
+
+/// the body; `rec` renders one recursive call from its argument expressions
+fn body(s: &Shape, rec: &dyn Fn(&[String]) -> String, nested: bool) -> String {
+    let mut b = prelude(s);
+    let n = s.nargs;
     let es = call_exprs(n);
     let call = rec(&es);
     if s.ret && nested {
@@ -103,7 +134,7 @@ fn body(s: &Shape, rec: &dyn Fn(&[String]) -> String, nested: bool) -> String {
     b
 }
 
-fn setup(s: &Shape) -> String {
+pub fn setup(s: &Shape) -> String {
     let mut o = String::new();
     for (i, &(m, sc)) in s.caps.iter().enumerate() {
         let init = match (m, sc) {
@@ -117,7 +148,7 @@ fn setup(s: &Shape) -> String {
     o
 }
 
-fn top_args(n: usize, first: u64) -> String {
+pub fn top_args(n: usize, first: u64) -> String {
     let mut v = vec![first.to_string()];
     for i in 1..n {
         v.push((first * 2 + 3 * i as u64).to_string());
@@ -197,8 +228,19 @@ fn gen_hand_fn(s: &Shape, idx: usize, nested: bool) -> String {
     o
 }
 
+const PROGRAM_HEAD: &str = "#![allow(warnings)]\nuse rlib_lambda::rec_lambda;\nuse std::collections::HashMap;\nuse std::cell::Cell;\n\
+fn emit(tag: &str, idx: usize, out: &[u64]) {\n    let mut s = String::new();\n    for z in out { s.push_str(&format!(\" {}\", z)); }\n    println!(\"{} {}{}\", tag, idx, s);\n}\n\
+fn vh(v: &[u64]) -> u64 { v.iter().fold(7u64, |a, b| a.wrapping_mul(1000003).wrapping_add(*b)) }\n\
+fn guard(tag: &str, idx: usize, code: i64, f: fn()) {\n    if std::panic::catch_unwind(f).is_err() { println!(\"{} {} {}\", tag, idx, code); }\n}\n";
+
+/// families of a shape that are rendered as function pairs inside the generated program
+fn prog_fams(s: &Shape) -> Vec<(usize, &str)> {
+    s.fams.iter().filter_map(|f| fam::index(f).map(|k| (k, f.as_str()))).filter(|(k, _)| fam::in_program(*k)).collect()
+}
+
 fn program(shapes: &[(usize, &Shape)]) -> String {
-    let mut o = String::from("#![allow(warnings)]\nuse rlib_lambda::rec_lambda;\n");
+    let mut o = String::from(PROGRAM_HEAD);
+    o.push_str(fam::Y_HELPERS);
     for (idx, s) in shapes {
         o.push_str(&gen_macro_fn(s, *idx, false));
         o.push_str(&gen_hand_fn(s, *idx, false));
@@ -206,28 +248,64 @@ fn program(shapes: &[(usize, &Shape)]) -> String {
             o.push_str(&gen_macro_fn(s, *idx, true));
             o.push_str(&gen_hand_fn(s, *idx, true));
         }
+        for (_, f) in prog_fams(s) {
+            o.push_str(&fam::items(s, *idx, f));
+            o.push_str(&fam::gen(s, *idx, f, true));
+            o.push_str(&fam::gen(s, *idx, f, false));
+        }
     }
-    o.push_str("fn main() {\n    std::panic::set_hook(Box::new(|_| {}));\n");
+    o.push_str("fn real_main() {\n    std::panic::set_hook(Box::new(|_| {}));\n");
     for (idx, _) in shapes {
-        writeln!(o, "    if std::panic::catch_unwind(|| shape_{i}_h()).is_err() {{ println!(\"H {i} -996\"); }}", i = idx).unwrap();
-        writeln!(o, "    if std::panic::catch_unwind(|| shape_{i}_m()).is_err() {{ println!(\"M {i} -997\"); }}", i = idx).unwrap();
+        writeln!(o, "    guard(\"H\", {i}, -996, shape_{i}_h);\n    guard(\"M\", {i}, -997, shape_{i}_m);", i = idx).unwrap();
     }
     for (idx, s) in shapes {
         if s.ret {
-            writeln!(o, "    if std::panic::catch_unwind(|| shape_{i}_hn()).is_err() {{ println!(\"G {i} -994\"); }}", i = idx).unwrap();
-            writeln!(o, "    if std::panic::catch_unwind(|| shape_{i}_mn()).is_err() {{ println!(\"N {i} -995\"); }}", i = idx).unwrap();
+            writeln!(o, "    guard(\"G\", {i}, -994, shape_{i}_hn);\n    guard(\"N\", {i}, -995, shape_{i}_mn);", i = idx).unwrap();
         }
     }
-    o.push_str("}\n");
+    for (idx, s) in shapes {
+        for (k, f) in prog_fams(s) {
+            let l = fam::letter(f);
+            writeln!(o, "    guard(\"h{l}\", {i}, {ch}, shape_{i}_h{l});\n    guard(\"m{l}\", {i}, {cm}, shape_{i}_m{l});",
+                     i = idx, l = l, ch = -941 - 2 * k as i64, cm = -940 - 2 * k as i64).unwrap();
+        }
+    }
+    o.push_str("}\nfn main() {\n    let t = std::thread::Builder::new().stack_size(1 << 30).spawn(real_main).unwrap();\n    \
+                if t.join().is_err() { std::process::exit(101); }\n}\n");
     o
 }
 
-fn rustc(nightly: bool, args: &[&str], cwd: &Path) -> (bool, String) {
+/// only what the expansion comparison looks at: the non-nested macro version of every shape
+fn expansion_program(shapes: &[(usize, &Shape)]) -> String {
+    let mut o = String::from("#![allow(warnings)]\nuse rlib_lambda::rec_lambda;\n");
+    for (idx, s) in shapes {
+        o.push_str(&gen_macro_fn(s, *idx, false));
+    }
+    o.push_str("fn main() {}\n");
+    o
+}
+
+#[derive(Clone, Copy, PartialEq)]
+enum Prof { Debug, Release }
+
+impl Prof {
+    fn flags(self) -> &'static [&'static str] {
+        match self { Prof::Debug => &[], Prof::Release => &["-C", "opt-level=3", "-C", "debug-assertions=off"] }
+    }
+    fn dir(self) -> &'static str {
+        match self { Prof::Debug => "st", Prof::Release => "sr" }
+    }
+    fn tag(self) -> &'static str {
+        match self { Prof::Debug => "d", Prof::Release => "r" }
+    }
+}
+
+fn rustc(nightly: bool, edition: &str, args: &[&str], cwd: &Path) -> (bool, String) {
     let mut c = Command::new("rustc");
     if nightly {
         c.arg("+nightly");
     }
-    c.args(["--edition", "2021", "--cap-lints", "allow"]).args(args).current_dir(cwd);
+    c.args(["--edition", edition, "--cap-lints", "allow"]).args(args).current_dir(cwd);
     match c.output() {
         Ok(o) => (o.status.success(), String::from_utf8_lossy(if o.status.success() { &o.stdout } else { &o.stderr }).into_owned()),
         Err(e) => (false, format!("cannot run rustc: {}", e)),
@@ -235,26 +313,39 @@ fn rustc(nightly: bool, args: &[&str], cwd: &Path) -> (bool, String) {
 }
 
 #[derive(Clone, Default)]
-struct Res {
+struct Run {
     compiled: bool,
-    m: Option<String>,
-    h: Option<String>,
-    mn: Option<String>, // the variant with a nested recursive call (shapes with a return type)
-    hn: Option<String>,
+    lines: std::collections::HashMap<String, String>, // tag -> numbers
+    editions: Option<(bool, bool)>,                  // family X: type checks as an edition 2018 / 2024 crate
+}
+
+#[derive(Clone, Default)]
+struct Res {
+    d: Run,
+    r: Run,
     x: String,
 }
 
 /// compile + run the given shapes as one program; false if it does not compile or crashes
-fn run_group(work: &Path, name: &str, shapes: &[(usize, &Shape)], res: &mut [Res]) -> bool {
+fn run_group(work: &Path, name: &str, prof: Prof, shapes: &[(usize, &Shape)], res: &mut [Run]) -> bool {
     let src = work.join(format!("{}.rs", name));
-    std::fs::write(&src, program(shapes)).unwrap();
-    let bin = work.join(name);
-    let (ok, _err) = rustc(false, &["--extern", "rlib_lambda=st/librlib_lambda.rlib", "-C", "debuginfo=0",
-                                    src.to_str().unwrap(), "-o", bin.to_str().unwrap()], work);
+    if !src.exists() {
+        std::fs::write(&src, program(shapes)).unwrap();
+    }
+    let bin = work.join(format!("{}_{}", name, prof.tag()));
+    let ext = format!("rlib_lambda={}/librlib_lambda.rlib", prof.dir());
+    let mut args: Vec<&str> = vec!["--extern", &ext, "-C", "debuginfo=0"];
+    args.extend_from_slice(prof.flags());
+    args.extend_from_slice(&[src.to_str().unwrap(), "-o", bin.to_str().unwrap()]);
+    let (ok, err) = rustc(false, "2021", &args, work);
     if !ok {
+        if shapes.len() == 1 && std::env::var("C20_VERBOSE").is_ok() {
+            eprintln!("c20: {} ({}) does not compile:\n{}", name, prof.tag(), err);
+        }
         return false;
     }
-    let (clean, out) = run_with_timeout(&bin, if shapes.len() == 1 { 20 } else { 180 });
+    let deep = shapes.iter().any(|(_, s)| s.fams.iter().any(|f| f.starts_with('D')));
+    let (clean, out) = run_with_timeout(&bin, if shapes.len() == 1 && !deep { 30 } else { 300 });
     if !clean && shapes.len() > 1 {
         return false; // crashed (stack overflow, abort, timeout): run every shape on its own
     }
@@ -267,8 +358,24 @@ fn run_group(work: &Path, name: &str, shapes: &[(usize, &Shape)], res: &mut [Res
         let idx: usize = match it.next().and_then(|x| x.parse().ok()) { Some(i) => i, None => continue };
         let rest = it.next().unwrap_or("").trim().to_string();
         if idx < res.len() {
-            if tag == "M" { res[idx].m = Some(rest); } else if tag == "H" { res[idx].h = Some(rest); }
-            else if tag == "N" { res[idx].mn = Some(rest); } else if tag == "G" { res[idx].hn = Some(rest); }
+            res[idx].lines.insert(tag.to_string(), rest);
+        }
+    }
+    // family X: the same program must type check as a crate of the other editions (macro hygiene / fragment rules differ)
+    if prof == Prof::Debug && shapes.iter().any(|(_, s)| s.fams.iter().any(|f| f == "X")) {
+        let mut oks = [false, false];
+        for (k, ed) in ["2018", "2024"].iter().enumerate() {
+            let meta = work.join(format!("{}_{}.rmeta", name, ed));
+            let a: Vec<&str> = vec!["--extern", &ext, "--emit=metadata", src.to_str().unwrap(), "-o", meta.to_str().unwrap()];
+            oks[k] = rustc(false, ed, &a, work).0;
+        }
+        if shapes.len() > 1 && !(oks[0] && oks[1]) {
+            return false; // find out which shape
+        }
+        for (idx, s) in shapes {
+            if s.fams.iter().any(|f| f == "X") {
+                res[*idx].editions = Some((oks[0], oks[1]));
+            }
         }
     }
     true
@@ -309,26 +416,151 @@ fn collapse(s: &str) -> String {
     s.split_whitespace().collect::<Vec<_>>().join(" ")
 }
 
-/// expansion of the given shapes as one program; false if rustc refuses
-fn expand_group(work: &Path, name: &str, shapes: &[(usize, &Shape)], res: &mut [Res]) -> bool {
+/// expansion of the given shapes as one program; None if rustc refuses
+fn expand_group(work: &Path, name: &str, release: bool, shapes: &[(usize, &Shape)]) -> Option<Vec<(usize, String)>> {
     let src = work.join(format!("{}.rs", name));
     if !src.exists() {
-        std::fs::write(&src, program(shapes)).unwrap();
+        std::fs::write(&src, expansion_program(shapes)).unwrap();
     }
-    let (ok, out) = rustc(true, &["-Zunpretty=expanded", "--extern", "rlib_lambda=ni/librlib_lambda.rlib",
-                                  src.to_str().unwrap()], work);
+    let ext = format!("rlib_lambda={}/librlib_lambda.rlib", if release { "nr" } else { "ni" });
+    let mut args: Vec<&str> = vec!["-Zunpretty=expanded", "--extern", &ext];
+    if release {
+        args.extend_from_slice(Prof::Release.flags());
+    }
+    args.push(src.to_str().unwrap());
+    let (ok, out) = rustc(true, "2021", &args, work);
     if !ok {
-        return false;
+        return None;
     }
+    let mut v = vec![];
     for (idx, _) in shapes {
         let start = format!("\nfn shape_{}_m() {{", idx);
         if let Some(p) = out.find(&start) {
             let rest = &out[p + 1..];
             let end = rest[1..].find("\nfn ").map(|e| e + 1).unwrap_or(rest.len());
-            res[*idx].x = collapse(&rest[..end]);
+            v.push((*idx, collapse(&rest[..end])));
         }
     }
-    true
+    Some(v)
+}
+
+/// `[lib] path` and `edition` of rlib/lambda/Cargo.toml (defaults src/lib.rs, 2021)
+fn lib_config(repo: &str) -> (String, String) {
+    let mut path = "src/lib.rs".to_string();
+    let mut edition = "2021".to_string();
+    if let Ok(t) = std::fs::read_to_string(format!("{}/rlib/lambda/Cargo.toml", repo)) {
+        let mut section = String::new();
+        for line in t.lines() {
+            let l = line.split('#').next().unwrap_or("").trim();
+            if l.starts_with('[') {
+                section = l.to_string();
+            } else if let Some((k, v)) = l.split_once('=') {
+                let (k, v) = (k.trim(), v.trim().trim_matches('"').to_string());
+                if section == "[package]" && k == "edition" && ["2015", "2018", "2021", "2024"].contains(&v.as_str()) {
+                    edition = v;
+                } else if section == "[lib]" && k == "path" {
+                    path = v;
+                }
+            }
+        }
+    }
+    (format!("{}/rlib/lambda/{}", repo, path), edition)
+}
+
+/// family K: the programs of the crate's own documentation and test file.  Returns (number of programs, their results)
+fn docs_program(repo: &str) -> (Vec<String>, String) {
+    let mut names = vec![];
+    let mut o = String::from("#![allow(warnings)]\n");
+    if let Ok(t) = std::fs::read_to_string(format!("{}/rlib/lambda/README.md", repo)) {
+        let mut inside = false;
+        let mut k = 0;
+        for line in t.lines() {
+            let l = line.trim_start();
+            if !inside && l.starts_with("```") {
+                let info = l.trim_start_matches('`').trim();
+                // rustdoc: a block without a language, or `rust`, is a doc test unless ignored
+                let is_rust = info.is_empty() || info.split(',').any(|w| w.trim() == "rust");
+                let skipped = info.split(',').any(|w| ["ignore", "text", "compile_fail"].contains(&w.trim()));
+                inside = true;
+                if is_rust && !skipped {
+                    names.push(format!("readme_{}", k));
+                    writeln!(o, "fn readme_{}() {{", k).unwrap();
+                    k += 1;
+                } else {
+                    o.push_str("#[cfg(any())] fn skipped() {\n");
+                }
+            } else if inside && l.starts_with("```") {
+                inside = false;
+                o.push_str("}\n");
+            } else if inside {
+                // rustdoc hides lines starting with `# ` but compiles them
+                let code = if let Some(r) = l.strip_prefix("# ") { r } else if l == "#" { "" } else { line };
+                o.push_str(code);
+                o.push('\n');
+            }
+        }
+        if inside {
+            o.push_str("}\n");
+        }
+    }
+    if let Ok(t) = std::fs::read_to_string(format!("{}/rlib/lambda/tests/tests.rs", repo)) {
+        o.push_str("mod tests_rs {\n");
+        let mut pending = false;
+        for line in t.lines() {
+            let l = line.trim();
+            if l == "#[test]" {
+                pending = true;
+                continue;
+            }
+            if pending && l.starts_with("fn ") {
+                if let Some(n) = l[3..].split('(').next() {
+                    names.push(format!("tests_rs::{}", n.trim()));
+                }
+                pending = false;
+                o.push_str("pub ");
+            }
+            o.push_str(line);
+            o.push('\n');
+        }
+        o.push_str("}\n");
+    }
+    o.push_str("fn main() {\n    std::panic::set_hook(Box::new(|_| {}));\n    let t = std::thread::Builder::new().stack_size(1 << 29).spawn(|| {\n");
+    for (k, n) in names.iter().enumerate() {
+        writeln!(o, "        println!(\"K {} {{}}\", if std::panic::catch_unwind(|| {}()).is_ok() {{ 1 }} else {{ 0 }});", k, n).unwrap();
+    }
+    o.push_str("    }).unwrap();\n    let _ = t.join();\n}\n");
+    (names, o)
+}
+
+fn run_docs(work: &Path, repo: &str, prof: Prof) -> (usize, Vec<i64>) {
+    let (names, text) = docs_program(repo);
+    let src = work.join(format!("docs_{}.rs", prof.tag()));
+    std::fs::write(&src, text).unwrap();
+    let bin = work.join(format!("docs_{}", prof.tag()));
+    let ext = format!("rlib_lambda={}/librlib_lambda.rlib", prof.dir());
+    let mut args: Vec<&str> = vec!["--extern", &ext, "-C", "debuginfo=0"];
+    args.extend_from_slice(prof.flags());
+    args.extend_from_slice(&[src.to_str().unwrap(), "-o", bin.to_str().unwrap()]);
+    let (ok, err) = rustc(false, "2021", &args, work);
+    if !ok {
+        if std::env::var("C20_VERBOSE").is_ok() {
+            eprintln!("c20: documentation/test programs do not compile ({}):\n{}", prof.tag(), err);
+        }
+        return (names.len(), vec![-980; names.len()]);
+    }
+    let (_, out) = run_with_timeout(&bin, 120);
+    let mut v = vec![-981i64; names.len()];
+    for line in out.lines() {
+        let t: Vec<&str> = line.split_whitespace().collect();
+        if t.len() == 3 && t[0] == "K" {
+            if let (Ok(k), Ok(r)) = (t[1].parse::<usize>(), t[2].parse::<i64>()) {
+                if k < v.len() {
+                    v[k] = r;
+                }
+            }
+        }
+    }
+    (names.len(), v)
 }
 
 fn main() {
@@ -338,74 +570,171 @@ fn main() {
     let base = std::env::var("C20_WORK").unwrap_or_else(|_| "/verif/harness/target/c20-work".to_string());
     let work: PathBuf = Path::new(&base).join(format!("run-{}", std::process::id()));
     let _ = std::fs::remove_dir_all(&work);
-    std::fs::create_dir_all(work.join("st")).unwrap();
-    std::fs::create_dir_all(work.join("ni")).unwrap();
-    let lib = format!("{}/rlib/lambda/src/lib.rs", repo);
-    let mut res: Vec<Res> = vec![Res::default(); shapes.len()];
+    for d in ["st", "sr", "ni", "nr"] {
+        std::fs::create_dir_all(work.join(d)).unwrap();
+    }
+    let (lib, lib_edition) = lib_config(&repo);
     let all: Vec<(usize, &Shape)> = shapes.iter().enumerate().collect();
+    let n = shapes.len();
 
-    // the library itself (macro definitions are only checked superficially here)
-    let (lib_st, e1) = rustc(false, &["--crate-type", "rlib", "--crate-name", "rlib_lambda", &lib, "--out-dir", "st"], &work);
-    let (lib_ni, e2) = rustc(true, &["--crate-type", "rlib", "--crate-name", "rlib_lambda", &lib, "--out-dir", "ni"], &work);
-    if !lib_st { eprintln!("c20: rlib_lambda does not compile (stable): {}", e1); }
-    if !lib_ni { eprintln!("c20: rlib_lambda does not compile (nightly): {}", e2); }
+    // the library itself (macro definitions are only checked superficially here), once per tool chain and profile
+    let mut lib_ok = [false; 4];
+    std::thread::scope(|sc| {
+        let hs: Vec<_> = [("st", false, false), ("sr", false, true), ("ni", true, false), ("nr", true, true)].iter().map(|&(dir, nightly, rel)| {
+            let (lib, work, ed) = (lib.clone(), work.clone(), lib_edition.clone());
+            sc.spawn(move || {
+                let mut a: Vec<&str> = vec!["--crate-type", "rlib", "--crate-name", "rlib_lambda", &lib, "--out-dir", dir];
+                if rel {
+                    a.extend_from_slice(Prof::Release.flags());
+                }
+                let (ok, e) = rustc(nightly, &ed, &a, &work);
+                if !ok {
+                    eprintln!("c20: rlib_lambda does not compile ({}): {}", dir, e);
+                }
+                ok
+            })
+        }).collect();
+        for (k, h) in hs.into_iter().enumerate() {
+            lib_ok[k] = h.join().unwrap();
+        }
+    });
 
-    let workers = 6usize;
-    if lib_st && !all.is_empty() && !run_group(&work, "all", &all, &mut res) {
-        // some shape does not compile: find out which, one program per shape
-        let chunks: Vec<Vec<(usize, &Shape)>> = (0..workers).map(|w| all.iter().cloned().filter(|(i, _)| i % workers == w).collect()).collect();
-        let parts: Vec<Vec<(usize, Res)>> = std::thread::scope(|sc| {
-            let hs: Vec<_> = chunks.iter().map(|ch| {
-                let work = work.clone();
-                let n = shapes.len();
-                sc.spawn(move || {
-                    let mut out = vec![];
-                    for (idx, s) in ch {
-                        let mut local = vec![Res::default(); n];
-                        run_group(&work, &format!("one_{}", idx), &[(*idx, *s)], &mut local);
-                        out.push((*idx, local[*idx].clone()));
-                    }
-                    out
-                })
-            }).collect();
-            hs.into_iter().map(|h| h.join().unwrap()).collect()
-        });
-        for p in parts { for (idx, r) in p { res[idx] = r; } }
+    // jobs: (profile, chunk of shapes); a failing chunk is split into single shapes by the same worker
+    let weight = |s: &Shape| 1 + s.ret as usize + 2 * s.fams.len();
+    let total: usize = shapes.iter().map(weight).sum();
+    let nchunks = ((total + 149) / 150).max(6).min(n.max(1));
+    let mut chunks: Vec<Vec<(usize, &Shape)>> = vec![vec![]; nchunks];
+    {
+        // greedy balancing by weight, keeping the order inside a chunk
+        let mut load = vec![0usize; nchunks];
+        for (i, s) in all.iter() {
+            let k = (0..nchunks).min_by_key(|&k| load[k]).unwrap();
+            load[k] += weight(s);
+            chunks[k].push((*i, *s));
+        }
     }
-    if lib_ni && !all.is_empty() && !expand_group(&work, "all", &all, &mut res) {
-        let chunks: Vec<Vec<(usize, &Shape)>> = (0..workers).map(|w| all.iter().cloned().filter(|(i, _)| i % workers == w).collect()).collect();
-        let parts: Vec<Vec<(usize, String)>> = std::thread::scope(|sc| {
-            let hs: Vec<_> = chunks.iter().map(|ch| {
-                let work = work.clone();
-                let n = shapes.len();
-                sc.spawn(move || {
-                    let mut out = vec![];
-                    for (idx, s) in ch {
-                        let mut local = vec![Res::default(); n];
-                        expand_group(&work, &format!("one_{}", idx), &[(*idx, *s)], &mut local);
-                        out.push((*idx, local[*idx].x.clone()));
-                    }
-                    out
-                })
-            }).collect();
-            hs.into_iter().map(|h| h.join().unwrap()).collect()
-        });
-        for p in parts { for (idx, x) in p { res[idx].x = x; } }
+    let res_d: Mutex<Vec<Run>> = Mutex::new(vec![Run::default(); n]);
+    let res_r: Mutex<Vec<Run>> = Mutex::new(vec![Run::default(); n]);
+    let xs: Mutex<Vec<String>> = Mutex::new(vec![String::new(); n]);
+    let xr: Mutex<Vec<Option<String>>> = Mutex::new(vec![None; n]);
+    let docs: Mutex<[Option<(usize, Vec<i64>)>; 2]> = Mutex::new([None, None]);
+    let want_docs = shapes.iter().any(|s| s.fams.iter().any(|f| f == "K"));
+
+    enum Job<'a> { Run(Prof, usize, &'a [(usize, &'a Shape)]), Expand(bool), Docs(Prof) }
+    let mut jobs: Vec<Job> = vec![];
+    if !all.is_empty() {
+        if lib_ok[2] { jobs.push(Job::Expand(false)); }
+        if lib_ok[3] { jobs.push(Job::Expand(true)); }
+        for (k, ch) in chunks.iter().enumerate() {
+            if ch.is_empty() { continue; }
+            if lib_ok[1] { jobs.push(Job::Run(Prof::Release, k, ch)); }
+            if lib_ok[0] { jobs.push(Job::Run(Prof::Debug, k, ch)); }
+        }
+        if want_docs {
+            if lib_ok[0] { jobs.push(Job::Docs(Prof::Debug)); }
+            if lib_ok[1] { jobs.push(Job::Docs(Prof::Release)); }
+        }
     }
+    let queue: Mutex<Vec<Job>> = Mutex::new(jobs.into_iter().rev().collect());
+    let workers: usize = std::env::var("C20_JOBS").ok().and_then(|x| x.parse().ok()).unwrap_or(6);
+    std::thread::scope(|sc| {
+        for _ in 0..workers {
+            sc.spawn(|| loop {
+                let job = match queue.lock().unwrap().pop() { Some(j) => j, None => break };
+                match job {
+                    Job::Run(prof, k, ch) => {
+                        let mut local = vec![Run::default(); n];
+                        if !run_group(&work, &format!("chunk{}", k), prof, ch, &mut local) {
+                            for (idx, s) in ch.iter() {
+                                local[*idx] = Run::default();
+                                run_group(&work, &format!("one_{}", idx), prof, &[(*idx, *s)], &mut local);
+                            }
+                        }
+                        let mut g = if prof == Prof::Debug { res_d.lock().unwrap() } else { res_r.lock().unwrap() };
+                        for (idx, _) in ch.iter() {
+                            g[*idx] = local[*idx].clone();
+                        }
+                    }
+                    Job::Expand(release) => {
+                        let name = if release { "xall_r" } else { "xall" };
+                        let got = match expand_group(&work, name, release, &all) {
+                            Some(v) => v,
+                            None => {
+                                let mut v = vec![];
+                                for (idx, s) in all.iter() {
+                                    if let Some(mut one) = expand_group(&work, &format!("xone_{}{}", idx, if release { "_r" } else { "" }), release, &[(*idx, *s)]) {
+                                        v.append(&mut one);
+                                    }
+                                }
+                                v
+                            }
+                        };
+                        if release {
+                            let mut g = xr.lock().unwrap();
+                            for (idx, x) in got { g[idx] = Some(x); }
+                        } else {
+                            let mut g = xs.lock().unwrap();
+                            for (idx, x) in got { g[idx] = x; }
+                        }
+                    }
+                    Job::Docs(prof) => {
+                        let r = run_docs(&work, &repo, prof);
+                        docs.lock().unwrap()[if prof == Prof::Debug { 0 } else { 1 }] = Some(r);
+                    }
+                }
+            });
+        }
+    });
+    let (res_d, res_r, xs, xr, docs) = (res_d.into_inner().unwrap(), res_r.into_inner().unwrap(), xs.into_inner().unwrap(),
+                                        xr.into_inner().unwrap(), docs.into_inner().unwrap());
+    let res: Vec<Res> = (0..n).map(|i| {
+        let x = if xs[i].is_empty() { String::new() }
+                else if xr[i].as_deref() != Some(xs[i].as_str()) { "XE release-expansion-differs".to_string() }
+                else { xs[i].clone() };
+        Res { d: res_d[i].clone(), r: res_r[i].clone(), x }
+    }).collect();
 
     let stdout = std::io::stdout();
     let mut out = std::io::BufWriter::new(stdout.lock());
     for (r, s) in res.iter().zip(shapes.iter()) {
-        // a missing line (crash, abort, timeout) must never compare equal to anything
-        let mut m = r.m.clone().unwrap_or_else(|| "-999".to_string());
-        let mut h = r.h.clone().unwrap_or_else(|| "-998".to_string());
-        if s.ret {
-            // the nested-call variant: its numbers follow the separator -7
-            m = format!("{} -7 {}", m, r.mn.clone().unwrap_or_else(|| "-993".to_string()));
-            h = format!("{} -7 {}", h, r.hn.clone().unwrap_or_else(|| "-992".to_string()));
+        let (mut m, mut h) = (String::new(), String::new());
+        for (pi, run) in [&r.d, &r.r].iter().enumerate() {
+            if pi == 1 {
+                m.push_str(" -8 ");
+                h.push_str(" -8 ");
+            }
+            // a missing line (crash, abort, timeout) must never compare equal to anything
+            let get = |tag: &str, missing: i64| run.lines.get(tag).cloned().unwrap_or_else(|| missing.to_string());
+            m.push_str(&get("M", -999));
+            h.push_str(&get("H", -998));
+            if s.ret {
+                // the nested-call variant: its numbers follow the separator -7
+                write!(m, " -7 {}", get("N", -993)).unwrap();
+                write!(h, " -7 {}", get("G", -992)).unwrap();
+            }
+            for f in &s.fams {
+                let k = fam::index(f).unwrap();
+                let l = fam::letter(f);
+                let sep = -20 - k as i64;
+                if fam::in_program(k) {
+                    write!(m, " {} {}", sep, get(&format!("m{}", l), -970 - 2 * k as i64)).unwrap();
+                    write!(h, " {} {}", sep, get(&format!("h{}", l), -971 - 2 * k as i64)).unwrap();
+                } else if l == 'K' {
+                    // documentation and test programs of the crate: every one must compile and pass
+                    let (cnt, v) = docs[pi].clone().unwrap_or((1, vec![-982]));
+                    write!(m, " {} {}", sep, cnt).unwrap();
+                    write!(h, " {} {}", sep, cnt).unwrap();
+                    for z in v { write!(m, " {}", z).unwrap(); }
+                    for _ in 0..cnt { h.push_str(" 1"); }
+                } else if l == 'X' && pi == 0 {
+                    let (a, b) = run.editions.unwrap_or((false, false));
+                    write!(m, " {} {} {}", sep, if a { 1 } else { -983 }, if b { 1 } else { -984 }).unwrap();
+                    write!(h, " {} 1 1", sep).unwrap();
+                }
+            }
         }
-        writeln!(out, "{} ## {} ## {} ## {}", if r.compiled { "OK" } else { "CE" }, m, h,
-                 if r.x.is_empty() { "XE" } else { &r.x }).unwrap();
+        let status = if !r.d.compiled { "CE" } else if !r.r.compiled { "CR" } else { "OK" };
+        writeln!(out, "{} ## {} ## {} ## {}", status, m, h, if r.x.is_empty() { "XE" } else { &r.x }).unwrap();
     }
     out.flush().unwrap();
     if std::env::var("C20_KEEP").is_err() {
